@@ -1,4 +1,5 @@
 import FpVerif.Lemmas.IterTerm
+import FpVerif.Spec.C12
 /-!
 # C20 — Iterator protocol is sound; Duplicate/Span/Partition survive any pull order
 
@@ -7,7 +8,8 @@ import FpVerif.Lemmas.IterTerm
 Here: what `Represents` gives to a client (every script of `HasNext`/`Next` calls observes the
 list, in order, `HasNext` is idempotent and non-consuming, `Next` on the exhausted iterator
 panics and keeps panicking), the zero value, and the two-sided iterators of
-`Duplicate`/`Span`/`Partition` under EVERY interleaving of the four calls.
+`Duplicate`/`Span`/`Partition` under EVERY interleaving of the four calls.  The last section lifts
+all of it over the pipeline AST `Pipe` ("for every iterator the library returns"): `pipe_*`.
 
 Callbacks are arbitrary logging, non-panicking Go functions (`Total p g`: `p` returns `g a`
 whatever the log is); element types, lists, scripts and logs are universally quantified.
@@ -235,6 +237,181 @@ theorem span_pulls_at_most_once (p : α → GoM Bool) (g : α → Bool) (hp : To
       by simp [DropWhileInv, hfuel]⟩
   simp only [spanLeft, spanRight]
   rw [e]; exact hle
+
+/-! ## every iterator the library returns: quantifying over the pipeline AST
+
+`Pipe` (`Model/IterPipe.lean`) is the AST of the iterator-producing library calls — ten sources
+(`IteratorOfSeq` / `iterator.Of` / `FromSeq` / `FromSlice`, `Range` / `RangeClosed`, `IteratorOfOption`,
+`Empty`, the zero value `Iterator[T]{}`, `ReverseSeq`, `MakePullIterator`, …) and fifteen combinators
+(`Map`, `TapEach`, `Take`, `Drop`, `TakeWhile`, `DropWhile`, `Filter`, `FilterNot`, `Concat`, `FlatMap`,
+`FilterMap`, `Scan`, `Zip`, `Zip3`, `ZipWithIndex`), nested arbitrarily, also inside `FlatMap` callbacks;
+`Pipe.buildF` runs the constructors, `Pipe.machineF` is the iterator returned (these are the
+definitions the oracle executes, with its fuel constant).  The theorems above are about any machine
+that `Represents` a list; `C12.pipe_representsF` says every pipeline does (callbacks that do not panic:
+`Pipe.WB`; any fuel above the explicit bound `Pipe.need`; lists of every length).  Put together, the
+protocol statements of C20 hold FOR EVERY PIPELINE, at EVERY POINT of EVERY call history. -/
+
+/-- For every pipeline and every call script: the script observes exactly what it observes on the
+    list `Pipe.denote`, and leaves an iterator representing the rest. -/
+theorem pipe_script_observes_list (p : Pipe) (x : Val) (hwb : p.WB x) (fuel : Nat) (hfuel : p.need x < fuel)
+    (cs : List Call) (lg : Log) :
+    ∃ s lg1, (p.buildF fuel x).run.run lg = (.ok s, lg1) ∧
+      (runScript (Pipe.machineF fuel p) cs s lg1).1.map Obs.erase = specScript cs (p.denote x) ∧
+      ∃ d', Represents (Pipe.machineF fuel p) (runScript (Pipe.machineF fuel p) cs s lg1).2.1 d'
+          (specRest cs (p.denote x)) ∧ d' ++ specRest cs (p.denote x) = p.denote x := by
+  obtain ⟨s, lg1, e, hR⟩ := C12.pipe_representsF p x hwb fuel hfuel lg
+  obtain ⟨h1, d', h2, h3⟩ := script_observes_list _ s [] _ hR cs lg1
+  exact ⟨s, lg1, e, h1, d', h2, by simpa using h3⟩
+
+/-- For every pipeline, after ANY call history `cs`: `k` further `HasNext` calls all give the same
+    answer — whether elements remain — and neither consume nor skip anything: the iterator still
+    represents the same rest. -/
+theorem pipe_hasNext_idempotent (p : Pipe) (x : Val) (hwb : p.WB x) (fuel : Nat) (hfuel : p.need x < fuel)
+    (cs : List Call) (k : Nat) (lg : Log) :
+    ∃ s lg1, (p.buildF fuel x).run.run lg = (.ok s, lg1) ∧
+      let st := runScript (Pipe.machineF fuel p) cs s lg1
+      let rest := specRest cs (p.denote x)
+      (runScript (Pipe.machineF fuel p) (List.replicate k .H) st.2.1 st.2.2).1
+          = List.replicate k (.has (!rest.isEmpty)) ∧
+      ∃ d', Represents (Pipe.machineF fuel p)
+        (runScript (Pipe.machineF fuel p) (List.replicate k .H) st.2.1 st.2.2).2.1 d' rest := by
+  obtain ⟨s, lg1, e, _, d', hR, _⟩ := pipe_script_observes_list p x hwb fuel hfuel cs lg
+  exact ⟨s, lg1, e, hasNext_idempotent _ _ d' _ hR k _⟩
+
+/-- For every pipeline, after ANY call history `cs` that leaves `a :: r`: `Next` — after any number
+    of `HasNext` calls, which all answer true — returns `a`, the next element, and only it is
+    consumed. -/
+theorem pipe_next_returns_next (p : Pipe) (x : Val) (hwb : p.WB x) (fuel : Nat) (hfuel : p.need x < fuel)
+    (cs : List Call) (a : Val) (r : List Val) (hrest : specRest cs (p.denote x) = a :: r) (k : Nat) (lg : Log) :
+    ∃ s lg1, (p.buildF fuel x).run.run lg = (.ok s, lg1) ∧
+      let st := runScript (Pipe.machineF fuel p) cs s lg1
+      ∃ s' lg' d', runScript (Pipe.machineF fuel p) (List.replicate k .H ++ [.N]) st.2.1 st.2.2 =
+          (List.replicate k (.has true) ++ [.val a], s', lg') ∧
+        Represents (Pipe.machineF fuel p) s' d' r := by
+  obtain ⟨s, lg1, e, _, d', hR, _⟩ := pipe_script_observes_list p x hwb fuel hfuel cs lg
+  rw [hrest] at hR
+  obtain ⟨s', lg', e', hR'⟩ := next_returns_next _ _ d' a r hR k (runScript (Pipe.machineF fuel p) cs s lg1).2.2
+  exact ⟨s, lg1, e, s', lg', _, e', hR'⟩
+
+/-- For every pipeline: once a call history `cs` has exhausted it, `Next` panics — no value is
+    fabricated — and it stays exhausted: in every continuation `cs2` every `HasNext` is false and
+    every `Next` panics. -/
+theorem pipe_next_on_exhausted_panics (p : Pipe) (x : Val) (hwb : p.WB x) (fuel : Nat) (hfuel : p.need x < fuel)
+    (cs : List Call) (hrest : specRest cs (p.denote x) = []) (cs2 : List Call) (lg : Log) :
+    ∃ s lg1, (p.buildF fuel x).run.run lg = (.ok s, lg1) ∧
+      let st := runScript (Pipe.machineF fuel p) cs s lg1
+      (runScript (Pipe.machineF fuel p) cs2 st.2.1 st.2.2).1.map Obs.erase =
+        cs2.map (fun c => match c with | .H => .has false | .N => .panic "") := by
+  obtain ⟨s, lg1, e, _, d', hR, _⟩ := pipe_script_observes_list p x hwb fuel hfuel cs lg
+  rw [hrest] at hR
+  exact ⟨s, lg1, e, next_on_exhausted_panics _ _ d' hR cs2 _⟩
+
+/-- `Duplicate` over EVERY pipeline, every interleaving: each side observes the complete sequence
+    `Pipe.denote`, in order. -/
+theorem pipe_duplicate_any_interleaving (p : Pipe) (x : Val) (hwb : p.WB x) (fuel : Nat) (hfuel : p.need x < fuel)
+    (cs : List Call2) (lg : Log) :
+    ∃ s lg1, (p.buildF fuel x).run.run lg = (.ok s, lg1) ∧
+      (obsLeft (runScript2 (dupLeft (Pipe.machineF fuel p)) (dupRight (Pipe.machineF fuel p)) cs (s, {}) lg1).1).map Obs.erase
+          = specScript (Call2.leftPart cs) (p.denote x) ∧
+      (obsRight (runScript2 (dupLeft (Pipe.machineF fuel p)) (dupRight (Pipe.machineF fuel p)) cs (s, {}) lg1).1).map Obs.erase
+          = specScript (Call2.rightPart cs) (p.denote x) := by
+  obtain ⟨s, lg1, e, hR⟩ := C12.pipe_representsF p x hwb fuel hfuel lg
+  exact ⟨s, lg1, e, duplicate_any_interleaving _ s _ hR cs lg1⟩
+
+/-- `Duplicate` pulls each element of its source exactly once, whatever the source pipeline and the
+    interleaving: after the script the shared source iterator has delivered exactly the first
+    `max gotL gotR` elements of `Pipe.denote` (the number obtained by the side that is further
+    ahead) and will deliver exactly the others. -/
+theorem duplicate_source_pulled_once (m : Machine σ α) (s : σ) (l : List α) (h : Represents m s [] l)
+    (cs : List Call2) (lg : Log) :
+    let fin := runScript2 (dupLeft m) (dupRight m) cs (s, {}) lg
+    let gotL := l.length - (specRest (Call2.leftPart cs) l).length
+    let gotR := l.length - (specRest (Call2.rightPart cs) l).length
+    Represents m fin.2.1.1 (l.take (Nat.max gotL gotR)) (l.drop (Nat.max gotL gotR)) := by
+  intro fin gotL gotR
+  have h2 := dup_sim2 (Represents.sim m)
+  have h0 : dupRel (Represents m) (s, ({} : DupSt α)) [] l [] l := ⟨[], l, h, by simp [DupInv]⟩
+  obtain ⟨s', lg', dL', dR', e, _, _, ⟨d, r, hRep, hI⟩, hdL, hdR⟩ := runScript2_sim h2 cs (s, {}) [] l [] l lg h0
+  have hfin : fin.2.1 = s' := by show (runScript2 _ _ cs (s, {}) lg).2.1 = s'; rw [e]
+  rw [hfin]
+  have hL : dL'.length = gotL := by
+    have := congrArg List.length hdL; simp at this; omega
+  have hR : dR'.length = gotR := by
+    have := congrArg List.length hdR; simp at this; omega
+  simp only [List.nil_append] at hdL hdR
+  simp only [DupInv] at hI
+  have key : ∀ n, d.length = n → d ++ r = l → Represents m s'.1 (l.take n) (l.drop n) := by
+    intro n hn hdr
+    subst hn; subst hdr
+    simpa using hRep
+  by_cases hla : s'.2.leftAhead = true
+  · simp only [hla, if_true] at hI
+    obtain ⟨h1, h2', h3, _⟩ := hI
+    have hle : dR'.length ≤ dL'.length := by rw [h3]; simp
+    refine key _ ?_ ?_
+    · rw [← h1, hL]; exact (Nat.max_eq_left (by omega)).symm
+    · rw [← h1, ← h2']; exact hdL
+  · simp only [hla] at hI
+    obtain ⟨h1, h2', h3, _⟩ := hI
+    have hle : dL'.length ≤ dR'.length := by rw [h3]; simp
+    refine key _ ?_ ?_
+    · rw [← h1, hR]; exact (Nat.max_eq_right (by omega)).symm
+    · rw [← h1, ← h2']; exact hdR
+
+theorem pipe_duplicate_pulls_once (p : Pipe) (x : Val) (hwb : p.WB x) (fuel : Nat) (hfuel : p.need x < fuel)
+    (cs : List Call2) (lg : Log) :
+    ∃ s lg1, (p.buildF fuel x).run.run lg = (.ok s, lg1) ∧
+      let fin := runScript2 (dupLeft (Pipe.machineF fuel p)) (dupRight (Pipe.machineF fuel p)) cs (s, {}) lg1
+      let l := p.denote x
+      let n := Nat.max (l.length - (specRest (Call2.leftPart cs) l).length)
+        (l.length - (specRest (Call2.rightPart cs) l).length)
+      Represents (Pipe.machineF fuel p) fin.2.1.1 (l.take n) (l.drop n) := by
+  obtain ⟨s, lg1, e, hR⟩ := C12.pipe_representsF p x hwb fuel hfuel lg
+  exact ⟨s, lg1, e, duplicate_source_pulled_once _ s _ hR cs lg1⟩
+
+/-- `Span` over EVERY pipeline, every interleaving (`sfuel`: the fuel of `Span`'s own `DropWhile`
+    loop, any number above the length). -/
+theorem pipe_span_any_interleaving (p : Pipe) (x : Val) (hwb : p.WB x) (fuel : Nat) (hfuel : p.need x < fuel)
+    (f : Val → GoM Bool) (g : Val → Bool) (hf : Total f g) (sfuel : Nat) (hsfuel : (p.denote x).length < sfuel)
+    (cs : List Call2) (lg : Log) :
+    ∃ s lg1, (p.buildF fuel x).run.run lg = (.ok s, lg1) ∧
+      (obsLeft (runScript2 (spanLeft f (Pipe.machineF fuel p)) (spanRight sfuel f (Pipe.machineF fuel p)) cs
+          ((s, {}), {}, {}) lg1).1).map Obs.erase = specScript (Call2.leftPart cs) ((p.denote x).takeWhile g) ∧
+      (obsRight (runScript2 (spanLeft f (Pipe.machineF fuel p)) (spanRight sfuel f (Pipe.machineF fuel p)) cs
+          ((s, {}), {}, {}) lg1).1).map Obs.erase = specScript (Call2.rightPart cs) ((p.denote x).dropWhile g) := by
+  obtain ⟨s, lg1, e, hR⟩ := C12.pipe_representsF p x hwb fuel hfuel lg
+  exact ⟨s, lg1, e, span_any_interleaving f g hf _ s _ hR sfuel hsfuel cs lg1⟩
+
+/-- `Partition` over EVERY pipeline, every interleaving. -/
+theorem pipe_partition_any_interleaving (p : Pipe) (x : Val) (hwb : p.WB x) (fuel : Nat) (hfuel : p.need x < fuel)
+    (f : Val → GoM Bool) (g : Val → Bool) (hf : Total f g) (sfuel : Nat) (hsfuel : (p.denote x).length < sfuel)
+    (cs : List Call2) (lg : Log) :
+    ∃ s lg1, (p.buildF fuel x).run.run lg = (.ok s, lg1) ∧
+      (obsLeft (runScript2 (partitionLeft sfuel f (Pipe.machineF fuel p)) (partitionRight sfuel f (Pipe.machineF fuel p)) cs
+          ((s, {}), {}, {}) lg1).1).map Obs.erase = specScript (Call2.leftPart cs) ((p.denote x).filter g) ∧
+      (obsRight (runScript2 (partitionLeft sfuel f (Pipe.machineF fuel p)) (partitionRight sfuel f (Pipe.machineF fuel p)) cs
+          ((s, {}), {}, {}) lg1).1).map Obs.erase = specScript (Call2.rightPart cs) ((p.denote x).filter (fun v => !g v)) := by
+  obtain ⟨s, lg1, e, hR⟩ := C12.pipe_representsF p x hwb fuel hfuel lg
+  exact ⟨s, lg1, e, partition_any_interleaving f g hf _ s _ hR sfuel hsfuel cs lg1⟩
+
+/-- the same for the machines the oracle runs (`Pipe.machine` = `Pipe.machineF FUEL`, hypothesis
+    `Pipe.OK`): every script on every pipeline observes the list. -/
+theorem pipe_script_observes_list_oracle (p : Pipe) (x : Val) (hok : p.OK x) (cs : List Call) (lg : Log) :
+    ∃ s lg1, (p.build x).run.run lg = (.ok s, lg1) ∧
+      (runScript (Pipe.machine p) cs s lg1).1.map Obs.erase = specScript cs (p.denote x) ∧
+      ∃ d', Represents (Pipe.machine p) (runScript (Pipe.machine p) cs s lg1).2.1 d'
+          (specRest cs (p.denote x)) ∧ d' ++ specRest cs (p.denote x) = p.denote x := by
+  obtain ⟨hwb, hneed⟩ := (Pipe.OK_iff p x).mp hok
+  exact pipe_script_observes_list p x hwb FUEL hneed cs lg
+
+/-- the hypotheses are satisfiable, and the statement is not empty: `Filter` over `Concat` over the
+    zero value and a slice of ANY length `n`. -/
+example (n : Nat) (x : Val) :
+    (Pipe.filter (.concat .zero (.seq ((List.range n).map (fun (i : Nat) => Val.int i)))) (fun _ => pure true)).WB x ∧
+    (Pipe.filter (.concat .zero (.seq ((List.range n).map (fun (i : Nat) => Val.int i)))) (fun _ => pure true)).need x = n := by
+  refine ⟨⟨⟨trivial, trivial⟩, LL.Total.pure1 (total_pure (fun _ => true))⟩, ?_⟩
+  show Max.max (Max.max 0 0) _ = n
+  simp [Pipe.denote]
 
 /-! ## hypotheses are satisfiable -/
 
